@@ -82,6 +82,7 @@ def families(rep, d) -> None:
         "unionmodels": ({"200": {"description": "d", "content": {"application/json": {"schema": {"oneOf": [out_ref, {"$ref": "#/components/schemas/Other"}]}}}}},
                         200, "application/json", b'{"w": "x"}', "model:Other", {"w": "x"}),
         "charset": ({"200": {"description": "d", "content": {"application/json; charset=utf-8": {"schema": out_ref}}}}, 200, "application/json; charset=utf-8", b'{"v": 9}', "model:Out", {"v": 9}),
+        "textthenjson": ({"200": {"description": "d", "content": {"text/plain": {"schema": S}, "application/json": {"schema": out_ref}}}}, 200, "text/plain", b"plain words", "text", "plain words"),
         "texthtml": ({"200": {"description": "d", "content": {"text/html": {"schema": S}}}}, 200, "text/html", b"<p>x</p>", "text", "<p>x</p>"),
         "twostatus": ({"200": {"description": "d", "content": {"application/json": {"schema": out_ref}}}, "404": {"description": "d", "content": {"application/json": {"schema": {"$ref": "#/components/schemas/Other"}}}}},
                       404, "application/json", b'{"w": "nf"}', "model:Other", {"w": "nf"}),
